@@ -182,6 +182,7 @@ type ReplayCase struct {
 	Params  map[string]int `json:"params"`
 	Tape    []TapeEntry    `json:"tape"`
 	Expect  string         `json:"expect"` // "pass" or assertion id expected to fail
+	Allow   map[string]bool `json:"-"`     // assertion ids the engine itself reported as failing in this instance
 }
 
 type ReplayOutcome struct {
@@ -480,6 +481,26 @@ func checkMain(args []string) int {
 	os.RemoveAll(workDir)
 	os.MkdirAll(workDir, 0o755)
 
+	// per-instance summary for diagnostics
+	{
+		type js struct {
+			Harness string
+			Params  map[string]int
+			Paths   int
+			Queries int
+			SolverS float64
+			WallS   float64
+			Steps   int64
+		}
+		var l []js
+		for _, r := range results {
+			if r != nil {
+				l = append(l, js{r.Harness, r.Params, r.Paths, r.Solver.Queries, r.Solver.Seconds, r.WallS, r.Steps})
+			}
+		}
+		b, _ := json.MarshalIndent(l, "", " ")
+		os.WriteFile(filepath.Join(workDir, "jobs.json"), b, 0o644)
+	}
 	// aggregate
 	inconclusive := []string{}
 	var totalPaths, totalQueries, totalAsserts, totalTriv, unwind, unknown, pathsDone int
@@ -555,7 +576,11 @@ func checkMain(args []string) int {
 		}
 		if r.SampleTape != nil && len(samples) < 400 {
 			name := fmt.Sprintf("s%d", i)
-			cases = append(cases, ReplayCase{Name: name, Harness: r.Harness, Params: r.Params, Tape: r.SampleTape, Expect: "pass"})
+			allow := map[string]bool{}
+			for _, f := range r.Failures {
+				allow[f.ID] = true
+			}
+			cases = append(cases, ReplayCase{Name: name, Harness: r.Harness, Params: r.Params, Tape: r.SampleTape, Expect: "pass", Allow: allow})
 		}
 		if len(samples) < 12 && r.SampleTape != nil {
 			samples = append(samples, map[string]interface{}{"harness": r.Harness, "params": r.Params, "paths": r.Paths, "solver_queries": r.Solver.Queries,
@@ -593,7 +618,15 @@ func checkMain(args []string) int {
 			switch o.Outcome {
 			case "pass":
 			case "fail":
-				inconclusive = append(inconclusive, fmt.Sprintf("encoding mismatch: sample path of %s %v fails natively: %v", c.Harness, c.Params, o.FailIDs))
+				bad := false
+				for _, id := range o.FailIDs {
+					if !c.Allow[id] {
+						bad = true
+					}
+				}
+				if bad {
+					inconclusive = append(inconclusive, fmt.Sprintf("encoding mismatch: sample path of %s %v fails natively: %v", c.Harness, c.Params, o.FailIDs))
+				}
 			default:
 				inconclusive = append(inconclusive, fmt.Sprintf("encoding mismatch: sample path of %s %v: native %s %s", c.Harness, c.Params, o.Outcome, o.Detail))
 			}
@@ -623,6 +656,8 @@ func checkMain(args []string) int {
 				d = o.Outcome + " " + strings.Join(o.FailIDs, ",") + " " + o.Detail
 			}
 			inconclusive = append(inconclusive, fmt.Sprintf("encoding mismatch: counterexample for %s in %s %v does not reproduce natively (%s)", p.f.ID, p.f.Harness, p.f.Params, d))
+			ub, _ := json.MarshalIndent(map[string]interface{}{"property": prop, "assertion": p.f.ID, "harness": p.f.Harness, "params": p.f.Params, "tape": p.f.Tape, "msg": p.f.Msg}, "", " ")
+			os.WriteFile(filepath.Join(workDir, "unconfirmed_"+p.name+".json"), ub, 0o644)
 			continue
 		}
 		pkg := strings.SplitN(p.f.Harness, ".", 2)[0]
